@@ -170,6 +170,7 @@ package parser
 //@   call newError#*: assert line-of-the-current-token: arg1 == p.curToken.Pos.EndLine + 1
 //@   decreases PD(p), 18
 //@ func (p *Parser) parseIfStmt
+//@   call parseExpression#*: assert whole-expression-level: arg1 == LOWEST
 //@   ensures well-formed-or-error: len(p.errors) == old(len(p.errors)) ==> result != nil && WFNode(iface(result))
 //@   use@post wfIfStmtI(stmt)
 //@   loop 0: invariant len(p.errors) == old(len(p.errors)) ==> WFN(stmt.Condition) && stmt.Consequence != nil && WFNode(iface(stmt.Consequence)) && stmt.Alternative == nil
@@ -180,10 +181,12 @@ package parser
 //@   loop 0: invariant stmt.Alternatives == nil || fresh(stmt.Alternatives)
 //@   loop 0: decreases PD(p)
 //@ func (p *Parser) parseForStmt
+//@   call parseExpression#*: assert whole-expression-level: arg1 == LOWEST
 //@   ensures well-formed-or-error: len(p.errors) == old(len(p.errors)) ==> result != nil && WFNode(iface(result))
 //@   use@post wfForStmtI(stmt)
 //@   decreases PD(p), 18
 //@ func (p *Parser) parseEachStmt
+//@   call parseExpression#*: assert whole-expression-level: arg1 == LOWEST
 //@   ensures well-formed-or-error: len(p.errors) == old(len(p.errors)) ==> result != nil && WFNode(iface(result))
 //@   use@post wfEachStmtI(stmt)
 //@   decreases PD(p), 18
@@ -200,18 +203,22 @@ package parser
 //@   goal keyed-by-own-name: result != nil ==> istype(result, *ast.ReserveStmt) && has(p.reserves, as(result, *ast.ReserveStmt).Name.Value)
 //@        && p.reserves[as(result, *ast.ReserveStmt).Name.Value] == as(result, *ast.ReserveStmt)
 //@ func (p *Parser) parseInsertStmt
+//@   call parseExpression#*: assert whole-expression-level: arg1 == LOWEST
 //@   ensures well-formed-or-error: len(p.errors) == old(len(p.errors)) ==> WFN(result)
 //@   use@post wfInsertStmtI(stmt)
 //@   decreases PD(p), 18
 //@ func (p *Parser) parseBreakIfStmt
+//@   call parseExpression#*: assert whole-expression-level: arg1 == LOWEST
 //@   ensures well-formed-or-error: len(p.errors) == old(len(p.errors)) ==> WFN(result)
 //@   use@post wfBreakIfStmtI(stmt)
 //@   decreases PD(p), 18
 //@ func (p *Parser) parseContinueIfStmt
+//@   call parseExpression#*: assert whole-expression-level: arg1 == LOWEST
 //@   ensures well-formed-or-error: len(p.errors) == old(len(p.errors)) ==> WFN(result)
 //@   use@post wfContinueIfStmtI(stmt)
 //@   decreases PD(p), 18
 //@ func (p *Parser) parseComponentStmt
+//@   call parseExpression#*: assert whole-expression-level: arg1 == LOWEST
 //@   ensures well-formed-or-error: len(p.errors) == old(len(p.errors)) ==> WFN(result)
 //@   use@post wfComponentStmtI(stmt)
 //@   use@post wfStringLiteralI(stmt.Name)
@@ -231,6 +238,7 @@ package parser
 //@   use@post wfHTMLStmtI(result)
 //@   decreases PD(p), 18
 //@ func (p *Parser) parseElseIfStmt
+//@   call parseExpression#*: assert whole-expression-level: arg1 == LOWEST
 //@   ensures well-formed-or-error: len(p.errors) == old(len(p.errors)) ==> result != nil && WFN(result.Condition) && result.Consequence != nil && WFNode(iface(result.Consequence))
 //@   ensures result != nil ==> PD(p) < old(PD(p))
 //@   decreases PD(p), 17
@@ -309,6 +317,7 @@ package parser
 //@   requires p.curToken.Type != token.EOF
 //@   decreases PD(p), 13
 //@ func (p *Parser) parseObjectLiteral
+//@   call parseExpression#*: assert whole-expression-level: arg1 == LOWEST
 //@   ensures well-formed-or-error: len(p.errors) == old(len(p.errors)) ==> WFN(result)
 //@   use@post wfObjectLiteralI(obj)
 //@   loop 0: invariant len(p.errors) == old(len(p.errors)) ==> forallkey(obj.Pairs, k, WFN(obj.Pairs[k]))
